@@ -180,7 +180,6 @@ class Wildcard(Base):
             data["uuid"] = self.uuid
         return data
 
-    @lru_cache
     def ipnets(self) -> LIpNet:
         """List of IPv4Network that match this wildcard.
 
@@ -190,20 +189,7 @@ class Wildcard(Base):
             wildcard.ipnets() -> [IPv4Network("10.0.0.0/30"),
                                   IPv4Network("10.0.1.0/30")]
         """
-        ipnets: LIpNet = []
-        prefix_i = int(self._prefix)
-        repeat = len(self._ncwb)
-        for bits_values in product((0, 1), repeat=repeat):
-            prefix_i_ = prefix_i
-            for idx, value in zip(self._ncwb, bits_values):
-                mask = 1 << idx
-                if value:
-                    prefix_i_ |= mask
-                else:
-                    prefix_i_ &= ~mask
-            ipnet = IPv4Network((prefix_i_, self._prefixlen))
-            ipnets.append(ipnet)
-        return ipnets
+        return _ipnets(int(self._prefix), tuple(self._ncwb), self._prefixlen)
 
     # =========================== helper =============================
 
@@ -293,6 +279,24 @@ class Wildcard(Base):
 
 
 # ============================ functions =============================
+
+
+@lru_cache
+def _ipnets(prefix_i: int, ncwb: tuple, prefixlen: int) -> LIpNet:
+    """List of IPv4Network for the prefix and non-contiguous wildcard bits (cached by values)."""
+    ipnets: LIpNet = []
+    repeat = len(ncwb)
+    for bits_values in product((0, 1), repeat=repeat):
+        prefix_i_ = prefix_i
+        for idx, value in zip(ncwb, bits_values):
+            mask = 1 << idx
+            if value:
+                prefix_i_ |= mask
+            else:
+                prefix_i_ &= ~mask
+        ipnet = IPv4Network((prefix_i_, prefixlen))
+        ipnets.append(ipnet)
+    return ipnets
 
 
 # noinspection PyIncorrectDocstring
